@@ -186,22 +186,36 @@ def calcDiv (r l : Arg N) : Except MErr (List (Arg N)) := do
 def calcSubtract (r l : Arg N) : Except MErr (List (Arg N)) :=
   arith sub (blank0 r) (blank0 l)
 
-/-- calcL/calcLe/calcG/calcGe: four independent `if`s, each of which may push -/
-def calcOrd (nn : N → N → Bool) (ss : Ordering → Bool) (ns sn : Bool) (r l : Arg N) : List (Arg N) :=
-  let p1 : List (Arg N) := match r, l with
-    | .num y _, .num x _ => [mkBool (nn x y)]
-    | _, _ => []
-  let p2 : List (Arg N) := match r, l with
-    | .str t, .str s => [mkBool (ss (cmpStr s t))]
-    | _, _ => []
-  let p3 : List (Arg N) := match r, l with
-    | .num _ _, .str _ => [mkBool sn]
-    | _, _ => []
-  let p4 : List (Arg N) := match r, l with
-    | .str _, .num _ _ => [mkBool ns]
-    | _, _ => []
-  -- later pushes end up on top
-  p4 ++ p3 ++ p2 ++ p1
+/-- `calcCompare`: numbers sort before text and text before logical values; numbers are compared
+numerically (`<`, `>`), text by `strings.Compare` of the upper-cased strings (ASCII letters in
+the model), FALSE before TRUE; `none` when an operand is neither (ArgError) -/
+def calcCompare (l r : Arg N) : Option Ordering :=
+  match l, r with
+  | .err _, _ => none
+  | _, .err _ => none
+  | .str s, .str t => some (cmpStr (upper s) (upper t))
+  | .num x bl, .num y br =>
+    some (if bl = br then (if lt x y then .lt else if lt y x then .gt else .eq)
+      else (if br then .lt else .gt))
+  | .num _ bl, .str _ => some (if bl then .gt else .lt)
+  | .str _, .num _ br => some (if br then .lt else .gt)
+
+/-- calcL/calcLe/calcG/calcGe: push `f (calcCompare l r)` when the operands are comparable -/
+def calcOrd (f : Ordering → Bool) (r l : Arg N) : List (Arg N) :=
+  match calcCompare l r with
+  | some o => [mkBool (f o)]
+  | none => []
+
+/-- `calcEqual`: scalar operands (ArgNumber / ArgString) are compared by type — different types
+are never equal, numbers by `==` (and the Boolean flags must agree), text with
+`strings.EqualFold` (modelled on ASCII letters); anything else by its `Value()` string -/
+def calcEqual (r l : Arg N) : Bool :=
+  match r, l with
+  | .num y br, .num x bl => (bl == br) && eq x y
+  | .str t, .str s => decide (upper s = upper t)
+  | .num _ _, .str _ => false
+  | .str _, .num _ _ => false
+  | r, l => decide (value r = value l)
 
 /-- body of each function named in the `tokenCalcFunc` map: the values it pushes (top first) -/
 def runCalcFn (fn : CalcFn) (r l : Arg N) : Except MErr (List (Arg N)) :=
@@ -210,12 +224,12 @@ def runCalcFn (fn : CalcFn) (r l : Arg N) : Except MErr (List (Arg N)) :=
   | .calcMultiply => arith mul r l
   | .calcAdd => arith add r l
   | .calcDiv => calcDiv r l
-  | .calcEq => pure [mkBool (value r = value l)]
-  | .calcNEq => pure [mkBool (value r ≠ value l)]
-  | .calcL => pure (calcOrd lt (· == .lt) true false r l)
-  | .calcLe => pure (calcOrd le (· != .gt) true false r l)
-  | .calcG => pure (calcOrd (fun x y => lt y x) (· == .gt) false true r l)
-  | .calcGe => pure (calcOrd (fun x y => le y x) (· != .lt) false true r l)
+  | .calcEq => pure [mkBool (calcEqual r l)]
+  | .calcNEq => pure [mkBool (!calcEqual r l)]
+  | .calcL => pure (calcOrd (· == .lt) r l)
+  | .calcLe => pure (calcOrd (· != .gt) r l)
+  | .calcG => pure (calcOrd (· == .gt) r l)
+  | .calcGe => pure (calcOrd (· != .lt) r l)
   | .calcSplice => pure [.str (value l ++ value r)]
 
 /-- `calculate(opdStack, opt)`: three sequential `if`s -/
@@ -486,13 +500,10 @@ def applyBin (op : Op) (l r : Arg N) : Except MErr (Arg N) :=
         let a ← liftE (toNumber l')
         let b ← liftE (toNumber r')
         pure (mkNum (f a b))
-      let ord (nn : N → N → Bool) (ss : Ordering → Bool) (ns sn : Bool) : Except MErr (Arg N) :=
-        match l', r' with
-        | .num x _, .num y _ => pure (mkBool (nn x y))
-        | .str s, .str t => pure (mkBool (ss (cmpStr s t)))
-        | .str _, .num _ _ => pure (mkBool sn)
-        | .num _ _, .str _ => pure (mkBool ns)
-        | _, _ => .error .panic
+      let ord (f : Ordering → Bool) : Except MErr (Arg N) :=
+        match calcCompare l' r' with
+        | some o => pure (mkBool (f o))
+        | none => .error .panic
       match op with
       | .pow => ar pow
       | .mul => ar mul
@@ -502,12 +513,12 @@ def applyBin (op : Op) (l r : Arg N) : Except MErr (Arg N) :=
         let b ← liftE (toNumber r')
         if isZero b then throw (.msg (.lit formulaErrorDIV))
         pure (mkNum (div a b))
-      | .eq => pure (mkBool (value r' = value l'))
-      | .ne => pure (mkBool (value r' ≠ value l'))
-      | .lt => ord lt (· == .lt) true false
-      | .le => ord le (· != .gt) true false
-      | .gt => ord (fun x y => lt y x) (· == .gt) false true
-      | .ge => ord (fun x y => le y x) (· != .lt) false true
+      | .eq => pure (mkBool (calcEqual r' l'))
+      | .ne => pure (mkBool (!calcEqual r' l'))
+      | .lt => ord (· == .lt)
+      | .le => ord (· != .gt)
+      | .gt => ord (· == .gt)
+      | .ge => ord (· != .lt)
       | _ => .error .panic
 
 def negate (a : Arg N) : Arg N := mkNum (sub zero (toNumberField a))
